@@ -1,9 +1,9 @@
-\* heads, the three assumptions on: the strong properties hold
-CONSTANTS NSubs = 1 NConn = 1 InitLen = 2 MaxLen = 4 MaxTag = 5 MaxReverts = 2 MaxL1 = 0 MaxPc = 0 MaxTx = 1 MaxGw = 0 MaxRecv = 0 MaxTicks = 0
-  MaxBack = 3 MaxGot = 6 Ver = 10 Kinds <- KHeads StartAtL1 <- NoL1 NoLag = TRUE QuietSub = TRUE ReorgPrio = TRUE TeeStage = TRUE Window = FALSE FixL1None = FALSE
+\* heads (v10) under NoLag, QuietSub, ReorgPrio: the user-level properties hold
+CONSTANTS NSubs = 1 NConn = 1 InitLen = 2 MaxLen = 4 MaxTag = 5 MaxReverts = 2 MaxL1 = 0 MaxPc = 0 MaxTx = 1 MaxGw = 0 MaxRecv = 0 MaxTicks = 0 MaxBack = 3 MaxGot = 6
+  Ver = 10 Kinds <- KHeads StartAtL1 <- NoL1 NoLag = TRUE QuietSub = TRUE ReorgPrio = TRUE TeeStage = TRUE Window = FALSE FixL1None = FALSE BlockIds <- BidsMed
 INIT Init
 NEXT Next
 VIEW view
-INVARIANTS TypeOK HistPrefix FiltersRespected HeadsViewOK HeadsComplete NoSilentDeath
+INVARIANTS TypeOK HistPrefix FiltersRespected PcOnce StatusNoRepeat HeadsViewOK HeadsComplete NoSilentDeath
 PROPERTIES EndedIsSilent
 CHECK_DEADLOCK FALSE
